@@ -100,6 +100,10 @@ def h_make_init(ctx):
     # requires: the realizability verdict holds (the transducer
     # constructors assert it before calling `_make_init`)
     w.assume(verdict)
+    if ctx.p.get('stale_impl', plus_one):
+        # an implementation was synthesized earlier on the same automaton:
+        # its initial condition is still stored
+        aut.init['impl'] = w.pred('EarlierImplInit', w.STATE)
     before = snapshot(aut)
     f = ctx.fn(gr1._make_init)
     ctx.call(f, internal, win, aut, label='_make_init')
@@ -125,7 +129,7 @@ def h_make_init(ctx):
     frame_ok = (after[0] == before[0] and after[1] == before[1]
                 and after[2] == before[2] and after[4] == before[4]
                 and {k: v for k, v in after[3].items() if k != 'impl'}
-                == before[3])
+                == {k: v for k, v in before[3].items() if k != 'impl'})
     w.oblige('_make_init.frame: only init[impl] written',
              z3.BoolVal(frame_ok), kind='frame')
     w.canary('_make_init.canary: init[impl] == InternalInit /\\ Win',
